@@ -25,6 +25,8 @@
 
 #include "modules/iauth.h"
 
+#include <errno.h>
+#include <limits.h>
 #include <unistd.h> /* STDIN_FILENO */
 
 /** Set of all pending IAuth requests. */
@@ -902,6 +904,7 @@ static void iauth_read(evutil_socket_t fd, short events, void *iauth_in_v)
     char *line;
     char *sep;
     size_t argc, len;
+    long lid;
     int id, res;
 
     if (!(events & EV_READ))
@@ -933,7 +936,17 @@ static void iauth_read(evutil_socket_t fd, short events, void *iauth_in_v)
         }
 
         log_message(iauth_log, LOG_DEBUG, "> %s", line);
-        id = strtol(line, &sep, 10);
+        errno = 0;
+        lid = strtol(line, &sep, 10);
+        if ((errno == ERANGE) || (lid < INT_MIN) || (lid > INT_MAX)) {
+            /* No client of ours can have this id; do not let it be
+             * taken for the one it would be truncated to.
+             */
+            log_message(iauth_log, LOG_WARNING, "Ignoring line with out-of-range id: %s", line);
+            free(line);
+            continue;
+        }
+        id = (int)lid;
 
         /* Parse the remaining arguments. */
         for (argc = 0; argc < ARRAY_LENGTH(argv); ) {
